@@ -1210,3 +1210,34 @@ Proof. eexists. split; [vm_compute; reflexivity|]. split; reflexivity. Qed.
 Example no_deadlock_nonvacuous : reachable st_two_scheds /\ sbusy (scheds st_two_scheds 1) = true /\
   lstep (LSLock 1) st_two_scheds = None.
 Proof. split; [apply body_mutex_nonvacuous|split; vm_compute; reflexivity]. Qed.
+
+(* ==================================================================
+   What C11 owes to the launcher: with the pinned launcher (children in the scheduler's process group)
+   a Ctrl-C of the experiment kills the running job; the experiment run again runs the body a second time
+   ================================================================== *)
+Definition mv_group_signal : list gmove :=
+  on 0 (tr_sched_launch 0 ++ tr_proc_begin 0) ++ [GDie 0] ++
+  on 0 (tr_sched_launch 0 ++ tr_proc_begin 1 ++ [LEnd 1 true; LTouch 1 true; LRmPid 1; LPUnlock 1; LWaitEnd 0]).
+Lemma group_signal_refuted : exists g gmid,
+  grun_group deps_one (firstn 18 mv_group_signal) gfresh0 = Some gmid /\
+  grun_group deps_one mv_group_signal gfresh0 = Some g /\
+  forallb gmove_single mv_group_signal = true /\ forallb quiet_move mv_group_signal = true /\
+  (* right after the death of the scheduler: the job process is gone, a failure marker is there *)
+  procs (jd gmid 0) 0 = PExit XFail /\ failed (jd gmid 0) = true /\ done (jd gmid 0) = false /\
+  (* final state of the second run: DONE, but the body ran twice *)
+  gfinal 1 g /\ scheds (jd g 0) 0 = SFinal VDone /\ done (jd g 0) = true /\ body_runs (jd g 0) = 2.
+Proof.
+  eexists. eexists. split; [vm_compute; reflexivity|]. split; [vm_compute; reflexivity|].
+  split; [vm_compute; reflexivity|]. split; [vm_compute; reflexivity|].
+  repeat split; try (vm_compute; reflexivity).
+  intros j Hj. destruct j as [|j]; [eexists; vm_compute; reflexivity|lia].
+Qed.
+(* the same moves with a launcher that gives every job its own session (GDie touches no job process):
+   the second run adopts the running process *)
+Definition mv_group_signal_detached : list gmove :=
+  on 0 (tr_sched_launch 0 ++ tr_proc_begin 0) ++ [GDie 0] ++
+  on 0 ([LSubmit 0; LTest1 0; LPid 0] ++ [LEnd 0 true; LTouch 0 true; LRmPid 0; LPUnlock 0] ++ [LAdoptEnd 0; LTest2 0]).
+Example group_signal_detached : exists g,
+  grun deps_one mv_group_signal_detached gfresh0 = Some g /\
+  scheds (jd g 0) 0 = SFinal VDone /\ body_runs (jd g 0) = 1 /\ launches (jd g 0) = 1.
+Proof. eexists. split; [vm_compute; reflexivity|]. repeat split. Qed.
